@@ -7,6 +7,8 @@ from .. import strcorpus, runner
 def generate(tier, rng, pid='C01'):
     enums = strcorpus.build_enums(rng, tier, pid, prefix_pool=(None, None, 'pre/', 'é-'))
     enums += strcorpus.build_soup(rng, tier, pid, prefix_pool=(None, None, 'p_'))
+    ovs = strcorpus.overlap_enums(pid)
+    enums += ovs
     info = strcorpus.query_model(enums)
     c = Corpus()
     for e in enums:
@@ -14,6 +16,10 @@ def generate(tier, rng, pid='C01'):
         c.add(e, in_domain=info[e.id]['nooverlap'])
         for s, cls in strcorpus.parse_inputs(rng, e, info[e.id], tier):
             c.op(e.id, 'parse %s' % hx(s), cls)
+    for e in ovs:
+        for s in strcorpus.OVERLAP_INPUTS:
+            c.op(e.id, 'parse %s' % hx(s), 'shared-spelling')
+    c.pointwise_ops = strcorpus.pointwise_domain(c)
     return c
 
 
@@ -23,6 +29,21 @@ def run(tier, seed, rng):
     c = generate(tier, rng)
     ws = runner.Workspace('c01')
     out = correspond(res, c, ws, label='modeB')
+    # the property covers enums that ask for the phf-backed matcher as well: FromStr and TryFrom, same answers
+    from . import c16
+    import copy
+    cp = Corpus()
+    pen = []
+    for e in c16.special_enums():
+        t = copy.deepcopy(e)
+        t.id, t.name, t.phf = 'c01' + e.id[3:] + 'p', 'EnC01' + e.name[5:] + 'P', True
+        pen.append(t)
+    pinfo = strcorpus.query_model(pen)
+    for t in pen:
+        cp.add(t, in_domain=pinfo[t.id]['nooverlap'])
+        for s, cls in strcorpus.parse_inputs(rng, t, pinfo[t.id], tier, max_full=4 if tier == 'quick' else 8):
+            cp.op(t.id, 'parse %s' % hx(s), 'phf:' + cls)
+    correspond(res, cp, runner.Workspace('c01phf', features=('derive', 'phf')), label='modeB-phf')
     table, distinct = distribution(c, out['model'])
     res.cov['input_distribution'] = table
     res.cov['distinct_nontrivial'] = len([d for d in distinct if not (d[1].startswith('random') and d[2].startswith('err'))])
